@@ -5,15 +5,17 @@ import ScryerModel.Model.ArithMixed
 import ScryerModel.Model.F64
 /-! drv_C36.
   `fmt\t<id>\t<cfg>\t<Fs>\t<Args>\t<Texts>`
-     cfg   : `fixed` | `pinned` (pinned `~Nd ~ND ~NU` on negative integers; pinned dashu
-             integer→double conversion of `10^N` in `~Nf`)
+     cfg   : `fixed` | `pinned` (pinned `~Nd ~ND ~NU` on negative integers)
      Fs    : the format string, canonical term syntax of the harness (any term)
      Args  : the argument list, canonical term syntax (any term)
      Texts : canonical term `['-'(W,Q),…]`: for the i-th argument the characters of
              write_term_to_chars with the options of `~w` and of `~q`
   result: `'ok'("…")` | `'err'(<formal error term>)` | `'failed'` | `unspec` (some error),
   printed in the canonical syntax, i.e. exactly what the harness prints for the implementation.
-  `pow10\t<id>\t<n>`: `same` iff the correctly rounded and the pinned conversion of 10^n agree. -/
+  `pow10\t<id>\t<n>`: `same` iff the correctly rounded and the pinned (dashu, findings C04-1/C02-4)
+     integer→double conversion of 10^n agree;
+  `ratconv\t<id>\t<num> <den>`: the same for the rational→double conversion (C04-2/C02-3). The check
+     only uses `~Nf` inputs for which the conversions agree (the conversion is C04's subject). -/
 open Scryer Scryer.Drv Scryer.Format
 
 namespace Scryer.DrvC36
@@ -46,24 +48,14 @@ def intOf : ArithMixed.Number → Format.R Int
   | .int n => .ok n.val
   | _ => .error .unspec
 
-/-- `Fr*10^N` where `10^N` is an integer: the integer is converted to a double first. With
-    `pinned` the conversion is the pinned dashu one (finding C04-1/C02-4) instead of the nearest. -/
-def mulPow (pinned : Bool) (fr p : ArithMixed.Number) : Except ArithMixed.Err ArithMixed.Number :=
-  match pinned, fr, p with
-  | true, .flt f, .int n => do
-    let pf ← ArithMixed.classify ⟨(Scryer.F64.dashuIntToF64 n.val).bits⟩
-    let r ← ArithMixed.mulFc f pf
-    pure (.flt r)
-  | _, _, _ => ArithMixed.mul fr p
-
 /-- the arithmetic of `float_with_n_decimal_digits//2`, goal by goal, on the C02 model. -/
-def prim (pinned : Bool) : Format.FPrim := fun t n => do
+def prim : Format.FPrim := fun t n => do
   let c : ArithMixed.Cfg := { libm := noLibm }
   let f ← toNumber t
   let ffp ← lift (ArithMixed.floatFractionalPart f)             -- Fr is abs(float_fractional_part(F))
   let fr := ArithMixed.abs ffp
   let p ← lift (ArithMixed.intPow c (.int (Arith.lit 10)) (.int (Arith.lit n)))   -- 10^N
-  let m ← lift (mulPow pinned fr p)
+  let m ← lift (ArithMixed.mul fr p)
   let r0 ← lift (ArithMixed.round c m)                          -- FrR0 is round(Fr*10^N)
   let frr0 ← intOf r0
   let t0 ← lift (ArithMixed.truncate c f)                       -- I0 is truncate(F)
@@ -103,7 +95,7 @@ def handle : List String → String
     | some fs, some args, some texts =>
       let tx := textsOf texts
       let pinned := cfg == "pinned"
-      showResult (Format.format_ { pinned := pinned } (prim pinned) (fun i => tx.getD i ([], [])) fs args)
+      showResult (Format.format_ { pinned := pinned } prim (fun i => tx.getD i ([], [])) fs args)
     | _, _, _ => "bad-term"
   | ["pow10", _, n] =>
     match n.toNat? with
@@ -112,6 +104,12 @@ def handle : List String → String
       if (Scryer.F64.dashuIntToF64 ((10 : Int) ^ n)).bits == (ArithFloat.ofInt ((10 : Int) ^ n)).bits
       then "same" else "differ"
     | none => "bad-args"
+  | ["ratconv", _, a] =>
+    match (words a).map parseInt? with
+    | [some n, some d] =>
+      if d ≤ 0 then "bad-args" else
+      if (Scryer.F64.dashuRatToF64 n d.toNat).bits == (ArithFloat.ofFrac n d.toNat).bits then "same" else "differ"
+    | _ => "bad-args"
   | _ => "bad-op"
 
 end Scryer.DrvC36
